@@ -307,7 +307,7 @@ KAURI_KERNELS = sorted(gens.KERNEL_PARAM_NAMES)
 
 
 @st.composite
-def kauri_spec(draw, n_max=30, d_max=4, kinds=("grid", "normal", "offset", "grid2", "const", "blobs", "line", "sorted", "onehot")):
+def kauri_spec(draw, n_max=30, d_max=4, kinds=("grid", "normal", "offset", "grid2", "const", "blobs", "line", "sorted", "onehot", "ulp")):
     n = draw(st.one_of(st.integers(max(1, n_max // 3), n_max), st.integers(1, n_max)))
     d = draw(st.integers(1, d_max))
     leaf = draw(st.sampled_from([1, 1, 2, 1, 3, 4]))
@@ -361,6 +361,9 @@ def build_kauri_data(s):
         X = X[np.argsort(X[:, 0])]
         if rs.randint(2):
             X = X[::-1]
+    elif kind == "ulp":  # values merged from two sources that differ in the last bit (0.3 and 0.1+0.2): neighbours 1-3 ulps apart
+        base = rs.choice([0.3, 1.0, 1000.0, -7.25e-3], size=d)
+        X = base * (1.0 + rs.randint(0, 4, size=(n, d)) * 2.0 ** -52)
     elif kind == "onehot":  # one-hot encoded categorical variable (plus noise columns when d > 3)
         X = rs.randn(n, d)
         w = min(d, 3)
